@@ -9,9 +9,9 @@
   exactly [ftyp, moov] or [ftyp, moov, free], every box with an explicit size, the sizes tiling the metadata, the
   padding zero.  (Lemmas/MetaWalk.lean: the encoded header is what the walker reads back; the kept ftyp / moov
   serialise to `encoded_len` bytes - an invariant of the scan; displacement keeps lengths.)
-  The fixpoint half (re-sanitizing md ++ media gives "nothing to do" with span {|md|, len}) is established per
-  generated case on the real code (the harness really concatenates and re-runs) and compared with the model;
-  its proof is future work — stated in DESIGN.md.
+  `C02_fixpoint` (for every input; Props/C02Fix.lean, because its proof uses this file): re-sanitizing
+  metadata ++ media span gives "nothing to do" with the span {|metadata|, len}.  The harness also really concatenates
+  and re-runs the real code on every rewritten output.
 -/
 import MediaSan.Lemmas.Mp4Header
 import MediaSan.Mp4.Sanitize
